@@ -793,6 +793,19 @@ def i_shared(ctx):
     c11.c(ctx)
 
 
+@R.clause("C13.j", "a persisted window is restored verbatim: initialize_from_persisted stores exactly the file's index and bitfield (a null window stays uninitialised)")
+def j_verbatim(ctx):
+    """Added after an independently written breaking change coerced the persisted fields with `int(... or 0)`: the
+    all-null window a clean stop writes for a context still waiting for its Echo exchange came back as an initialised,
+    empty window and every pre-crash request was accepted again."""
+    fi = ctx.prog.func("oscore.ReplayWindow.initialize_from_persisted")
+    p = params(fi)[0]
+    for attr, key in (("_index", "index"), ("_bitfield", "bitfield")):
+        st = [n for n in walk_no_nested(fi.node) if isinstance(n, ast.Assign) and any(chain(t) == "self." + attr for t in n.targets)]
+        ok = len(st) == 1 and match("%s[%r]" % (p, key), st[0].value) is not None
+        ctx.ob("%s is restored exactly as persisted under %r" % (attr, key), ok, fi, st[0] if st else fi.node, construct=stmt_text(st[0]) if st else "initialize_from_persisted: %s" % attr)
+
+
 F_ = "aiocoap/oscore.py"
 R.seed("C13.a", F_, "        if retval >= MAX_SEQNO:", "        if retval > MAX_SEQNO:", ">= -> > in the exhaustion test")
 R.seed("C13.a", F_, "MAX_SEQNO = 2**40 - 1", "MAX_SEQNO = 2**40", "limit one too high")
@@ -854,3 +867,5 @@ R.seed("C13.g", F_, "                # The replay window will stay uninitialized
 R.seed("C13.h", F_, "        self._index = seen\n        self._bitfield = 1\n", "        self._index = max(seen - self._size + 1, 0)\n        self._bitfield = 1 << (seen - self._index)\n", "recovered window anchored below the Echo-verified number: pre-crash requests replayable")
 
 R.seed("C13.i", F_, "partial_iv.lstrip(b\"\\0\")", "partial_iv.strip(b\"\\0\")", "trailing zero bytes stripped too: 256 gets the partial IV of 1")
+
+R.seed("C13.j", F_, "        self._index = persisted[\"index\"]\n        self._bitfield = persisted[\"bitfield\"]\n", "        self._index = int(persisted[\"index\"] or 0)\n        self._bitfield = int(persisted[\"bitfield\"] or 0)\n", "null window (clean stop while waiting for Echo) restored as an empty initialised window")
